@@ -18,3 +18,7 @@ mod smoke;
 
 #[cfg(kani)]
 mod c13;
+
+#[cfg(kani)]
+mod c19;
+
